@@ -95,12 +95,13 @@ def run_impl(cases, tag):
 # ---------------------------------------------------------------------------------------
 # parameters re-extracted from the current source (coq/gen/Params_TokenCache.v)
 # ---------------------------------------------------------------------------------------
-THEOREMS = [("Arc.TokenCache.Props", t) for t in (
-    "C21_no_stale_after_return", "C21_revoked_value_rejected", "C21_pool2_stale_refuted",
-    "C21_expiry_refuted", "C21_expiry_overshoot_bounded", "C21_unexpired_when_clamped",
-    "C21_schedules_are_runs")] + [("Arc.TokenCache.Obligations", t) for t in (
-        "C21_deployed_single_connection", "C21_deployed_writers_invalidate",
-        "C21_deployed_revoked_value_rejected", "C21_deployed_expiry")]
+THEOREMS = [("Arc.TokenCache.Obligations", t) for t in (
+    # PRIMARY: the statements about the code as it is now (parameters re-extracted each run)
+    "C21_deployed_revoked_value_rejected", "C21_deployed_unexpired", "C21_deployed_single_connection",
+    "C21_deployed_keeps_connection", "C21_deployed_clamped", "C21_deployed_writers_invalidate")] + [("Arc.TokenCache.Props", t) for t in (
+        "C21_no_stale_after_return", "C21_revoked_value_rejected", "C21_unexpired_when_clamped", "C21_schedules_are_runs",
+        # statements about other variants: pool of 2 (necessity of the single connection), unclamped cache expiry (before 7177f8c)
+        "C21_pool2_stale_refuted", "C21_expiry_refuted", "C21_expiry_overshoot_bounded")]
 MODULES = ["Arc.TokenCache.Props", "Arc.TokenCache.Obligations"]
 TIE_NAME = ("C21 correspondence (forced schedules on the real AuthManager vs Arc.TokenCache.Model.run_sched) / "
             "Params_TokenCache (SetMaxOpenConns, cache expiry expression, api_tokens writers)")
@@ -139,8 +140,10 @@ def translate_params():
         else:
             raise vlib.TieBroken("unrecognised cache expiry expression %r in VerifyToken (known forms: now.Add(am.cacheTTL); "
                                  "x := now.Add(am.cacheTTL) clamped by `if expiresAt.Valid && expiresAt.Time.Before(x) { x = expiresAt.Time }`)" % expr)
-    if not re.search(r"defer\s+rows\.Close\(\)", body):
-        raise vlib.TieBroken("VerifyToken no longer defers rows.Close(): the connection-holding step of the model does not apply")
+    # the query's rows (and with them the pooled connection) stay open until VerifyToken returns:
+    # deferred Close, and no explicit rows.Close() before the cache insert
+    ins = body.find("am.cache[key]")
+    keeps_rows = bool(re.search(r"defer\s+rows\.Close\(\)", body)) and not re.search(r"^\s*rows\.Close\(\)", body[:ins], re.M)
     # writers of api_tokens and whether they invalidate the token cache
     writers = []
     for relf in ("internal/auth/auth.go", "internal/auth/cluster_apply.go"):
@@ -163,10 +166,11 @@ def translate_params():
     body += "From Coq Require Import List String Bool.\nImport ListNotations.\nOpen Scope string_scope.\n"
     body += "(* NewAuthManager: db.SetMaxOpenConns(%s) *)\nDefinition db_max_open_conns : nat := %d.\n" % (arg, pool)
     body += "(* VerifyToken cache insert: expiresAt: %s *)\nDefinition cache_expiry_clamped : bool := %s.\n" % (expr, cbool(clamp))
+    body += "(* VerifyToken: `defer rows.Close()` and no earlier rows.Close(): the connection is kept across the cache insert *)\nDefinition verify_keeps_rows_open : bool := %s.\n" % cbool(keeps_rows)
     body += "(* functions that UPDATE/DELETE api_tokens rows (other than last_used_at) -> call InvalidateCache / invalidateAndReturn *)\n"
     body += "Definition token_writers : list (string * bool) := [\n  " + ";\n  ".join('("%s", %s)' % (n, cbool(v)) for n, v in writers) + "].\n"
     vlib.write_params("Params_TokenCache", body)
-    return {"db_max_open_conns": pool, "cache_expiry_clamped": clamp, "cache_expiry_expr": expr, "token_writers": writers}
+    return {"db_max_open_conns": pool, "verify_keeps_rows_open": keeps_rows, "cache_expiry_clamped": clamp, "cache_expiry_expr": expr, "token_writers": writers}
 
 
 # ---------------------------------------------------------------------------------------
@@ -673,6 +677,10 @@ def run(res, tier, seed):
         "schedule points are inserted textually into copies of the current auth.go / cluster_apply.go (anchors: token query, cache insert Lock/Unlock in VerifyToken, every am.InvalidateCache() statement)",
     ]
 
+    if tier == "thorough":
+        ok, _ = vlib.coqchk_stage(res, MODULES)
+        if not ok:
+            failed.append(("coqchk", "coqchk did not accept the compiled development"))
     t1 = time.time()
     cases = corpus_cases() + witness_cases(params) + gen_cases(params, rng, tier)
     for i, c in enumerate(cases):
